@@ -57,6 +57,7 @@ func c01Jobs(tier string) []string {
 		for _, j := range rawJobsC01(tier) {
 			jobs = append(jobs, j)
 		}
+		jobs = append(jobs, "loop")
 		return jobs
 	}
 	for _, v6 := range []string{"", ",v6=1"} {
